@@ -59,6 +59,7 @@ def run(ctx, rep):
     r5(prog, ev, rep)
     r7(prog, ev, rep)
     r8(prog, ev, rep)
+    r9(prog, ev, rep)
 
 
 # ------------------------------------------------------------------------------------------- R1
@@ -501,6 +502,56 @@ def _cond_key(c):
         if x.k == "call":
             return x.a[0].rsplit("::", 1)[1]
     return c.k
+
+
+# ------------------------------------------------------------------------------------------- R9
+def r9(prog, ev, rep):
+    rep.rule("C05-R9", "the `@` marker is exact: a pointer counts as `the node under test` only if its path EQUALS the marker that "
+             "Pointer::empty stores, and no other constructor can produce that path (so nodes reached from `@` by a relative query are "
+             "ordinary nodes)", floor=2)
+    try:
+        ep = prog.inherent_method("crate::query::state::Pointer", "empty")
+    except Exception:
+        rep.unrecognised("C05-R9", "Pointer::empty", "-", "constructor of the `@` marker not found"); return
+    et = ev.summary(ep)
+    f = dict(et.a[2]) if et.k == "adt" else {}
+    pt = f.get("path")
+    marker = None
+    if pt is not None:
+        if pt.k == "call" and pt.a[0] == "alloc::string::String::new":
+            marker = ""
+        elif pt.k == "call" and pt.a[0].endswith("to_string") and len(pt.a) == 2 and pt.a[1].k == "lit":
+            marker = pt.a[1].a[1]
+        elif pt.k == "lit":
+            marker = pt.a[1]
+    if marker is None:
+        rep.unrecognised("C05-R9", "Pointer::empty/marker", prog.loc_of(ep), "marker path is `%s`" % pt); return
+    rep.check(not marker.startswith("$"), "C05-R9", "Pointer::empty/marker", prog.loc_of(ep), "marker %r cannot be a real path" % marker,
+              "the `@` marker %r looks like a real path" % marker)
+    # every predicate on Pointer that reads the path and returns bool must be equality with the marker
+    n = 0
+    for p, it in prog.items.items():
+        if it["kind"] == "AssocFn" and (it.get("impl_self") or "").startswith("crate::query::state::Pointer<") and not it.get("impl_trait") \
+                and it.get("output_s") == "bool":
+            t = ev.summary(p)
+            if not any(x.k == "field" and x.a[1] == "path" for x in subterms(t)):
+                continue
+            n += 1
+            selfpath = Tm("field", (Tm("param", (0, "self")), "path"))
+            exact = False
+            if t.k == "call" and t.a[0].endswith("String::is_empty") and t.a[1] == selfpath:
+                exact = marker == ""
+            elif t.k == "bin" and t.a[0] == "Eq" and selfpath in (t.a[1], t.a[2]):
+                other = t.a[2] if t.a[1] == selfpath else t.a[1]
+                exact = other.k == "lit" and other.a[1] == marker
+            elif t.k == "call" and "PartialEq" in t.a[0] and t.a[0].endswith("::eq") and selfpath in t.a[1:]:
+                other = [x for x in t.a[1:] if x != selfpath]
+                exact = bool(other) and other[0].k == "lit" and other[0].a[1] == marker
+            rep.check(exact, "C05-R9", "%s|exact-marker" % p.rsplit("::", 1)[1], prog.loc_of(p), "path == marker",
+                      "`%s` is `%s`: it is also true for pointers that merely start with / contain the marker (children reached from `@`), "
+                      "so a filter nested inside a relative query is evaluated on the wrong node" % (p.rsplit("::", 1)[1], t))
+    if n == 0:
+        rep.ok("C05-R9", "no-path-predicate", "-", "no boolean predicate reads Pointer.path")
 
 
 # ------------------------------------------------------------------------------------------- R8
